@@ -56,6 +56,22 @@ func init() {
 	}
 }
 
+// tkQuotePool: literals whose content starts or ends with an escaped quote, is one quote, is empty; a lone
+// quote, three and five quotes (unterminated under the doubled-quote convention); an empty literal as the
+// last token of the input - for both quote characters, bare and in the context of each tokenizer.
+func tkQuotePool() []string {
+	var out []string
+	for _, q := range []string{"'", "\""} {
+		a := func(parts ...string) string { return strings.ReplaceAll(strings.Join(parts, ""), "Q", q) }
+		lits := []string{a("QQQaQ"), a("QaQQQ"), a("QQQaQQQ"), a("QQQQ"), a("QQQ"), a("QQQQQ"), a("QQQQQQ"), a("QaQQ"), a("QQQa"), a("QaQQbQ"), a("QQ"), a("Q Q")}
+		for i, l := range lits {
+			out = append(out, l, []string{"a = ", "{{ f ", "1,"}[i%3]+l)
+		}
+		out = append(out, a("QQQxQ)+(QyQQQ"), a("a,QQ\r\nQQ,QQ"), a("1,2\r\n3,QQ"), a("QQQaQ,QbQQQ\nQQQQ,QQ"), a("x {{ f QQ"), a("{{#a QQ}}QQ{{/a}}QQ"), a("{{QQQaQ}}"), a("QQ QQ"), a("QQ+QQ"))
+	}
+	return out
+}
+
 type tkSpan struct {
 	typ, val  string
 	line, col int64
@@ -146,8 +162,8 @@ func optNames(mask int) string {
 }
 
 // checkBase: lossless and positions of the option-free stream.
-func tkCheckBase(kind, s string, toks []tkTok, v *tkVerdict, path string) {
-	show := fmt.Sprintf("%s tokenizer on %q", kind, s)
+func tkCheckBase(who, s string, toks []tkTok, v *tkVerdict, path string) {
+	show := fmt.Sprintf("%s on %q", who, s)
 	tail := " [last functions entered: " + path + "]"
 	var sb strings.Builder
 	bad := ""
@@ -182,7 +198,7 @@ func tkCheckBase(kind, s string, toks []tkTok, v *tkVerdict, path string) {
 }
 
 // tkExpect: the option-free stream with whole tokens dropped or rewritten (statement of C15).
-func tkExpect(base []tkTok, fromQuote []bool, decoded []string, mask int) []tkTok {
+func tkExpect(base []tkTok, fromQuote []bool, decoded [][]string, alt int, mask int) []tkTok {
 	on := func(name string) bool {
 		for i, o := range tkOptions {
 			if o == name {
@@ -198,7 +214,7 @@ func tkExpect(base []tkTok, fromQuote []bool, decoded []string, mask int) []tkTo
 			continue
 		}
 		if fromQuote[i] && on("DecodeStrings") {
-			t.val = decoded[i]
+			t.val = decoded[i][min(alt, len(decoded[i])-1)]
 		}
 		if t.typ == "Comment" && on("SkipComments") {
 			continue
@@ -221,16 +237,51 @@ func tkExpect(base []tkTok, fromQuote []bool, decoded []string, mask int) []tkTo
 	return out
 }
 
-// quoteInfo: which base tokens were read by the quote state, and their decoded values (through the
-// tokenizer's own GetCharacterState / QuoteState / DecodeString).
-func (h *tkHarness) quoteInfo(base []tkTok) (from []bool, dec []string, why string) {
+// tkDecodeModel: the decoded value of a token read by the quote state, written from the statements
+// (C09: "a doubled quote decodes to one quote"; C14: the encoded form - the text between a pair of
+// quote characters, for the expression and CSV states with every quote inside doubled - is read back
+// as one token whose decoded value is the original string; the generic state, also used for
+// templates, ends a literal at the next occurrence of its opening quote and knows no escape).
+// A terminated literal therefore decodes to its content: the enclosing pair removed - that one pair
+// only - and every doubled quote inside standing for one. For a literal that runs into the end of
+// the input no closing quote exists; the statements only say that decoding does not fail, so the raw
+// text and the content read so far are both accepted (first result = the value used in reports).
+func tkDecodeModel(kind, raw string) []string {
+	rs := []rune(raw)
+	if len(rs) == 0 {
+		return []string{raw}
+	}
+	q := rs[0]
+	doubled := kind == "expression" || kind == "csv"
+	var content []rune
+	for i := 1; i < len(rs); i++ {
+		if rs[i] != q {
+			content = append(content, rs[i])
+			continue
+		}
+		if doubled && i+1 < len(rs) && rs[i+1] == q {
+			content = append(content, q)
+			i++
+			continue
+		}
+		if i == len(rs)-1 {
+			return []string{string(content)} // the closing quote
+		}
+		return []string{raw} // a quote in the middle of a token of the plain convention: not a literal of this state
+	}
+	return []string{raw, string(content)}
+}
+
+// quoteInfo: which base tokens were read by the quote state (the state the tokenizer's own
+// GetCharacterState names for the first character), and their decoded values by tkDecodeModel.
+func (h *tkHarness) quoteInfo(kind string, base []tkTok) (from []bool, dec [][]string, why string) {
 	qs, out := h.call("QuoteState")
 	if out.kind != "ok" {
 		return nil, nil, "QuoteState: " + out.why
 	}
 	for _, t := range base {
 		isQ := false
-		d := t.val
+		d := []string{t.val}
 		// (text outside the tags of a template is read by the special state whatever it starts with)
 		if t.val != "" && t.typ != "Special" {
 			first := []rune(t.val)[0]
@@ -244,29 +295,223 @@ func (h *tkHarness) quoteInfo(base []tkTok) (from []bool, dec []string, why stri
 				}
 			}
 			if isQ {
-				qi, ok := qs.(mIface)
-				if !ok {
-					return nil, nil, "the quote state is " + mRender(qs)
-				}
-				f := h.c.lookupMethod(qi.t, "DecodeString")
-				if f == nil {
-					return nil, nil, "DecodeString not found"
-				}
-				r, o := h.m.Call(f, qi.v, t.val, int64(first))
-				if o.kind != "ok" {
-					return nil, nil, "DecodeString: " + o.why
-				}
-				ds, ok := r.(string)
-				if !ok {
-					return nil, nil, "DecodeString returns " + mRender(r)
-				}
-				d = ds
+				d = tkDecodeModel(kind, t.val)
 			}
 		}
 		from = append(from, isQ)
 		dec = append(dec, d)
 	}
 	return
+}
+
+// ---- instances configured through the exported API -------------------------------------------------
+// "Any built-in tokenizer" includes one whose symbol table, separators or quote symbols were set
+// through the exported API, also between two inputs. A history is a list of stages: configuration
+// calls, then inputs; every stream of every stage must be lossless and correctly positioned.
+
+type tkStage struct {
+	desc   string                    // the configuration calls of this stage in words ("" = none)
+	apply  func(h *tkHarness) string // "" or why the configuration could not be applied
+	inputs []string
+}
+
+type tkHistory []tkStage
+
+// addSymbols registers further symbols (plain Symbol type) with the tokenizer's symbol state.
+func (h *tkHarness) addSymbols(syms ...string) string {
+	sv, out := h.call("SymbolState")
+	si, ok := sv.(mIface)
+	if out.kind != "ok" || !ok {
+		return "SymbolState: " + out.why
+	}
+	f := h.c.lookupMethod(si.t, "Add")
+	if f == nil {
+		return "the symbol state has no Add"
+	}
+	typ, _ := h.c.constByName("tokenizers", "Symbol")
+	for _, s := range syms {
+		if _, out := h.m.Call(f, si.v, s, typ); out.kind != "ok" {
+			return fmt.Sprintf("SymbolState().Add(%q): %s %s", s, out.kind, out.why)
+		}
+	}
+	return ""
+}
+
+func (h *tkHarness) setRunes(method string, rs string) string {
+	var arr []mv
+	for _, r := range rs {
+		arr = append(arr, int64(r))
+	}
+	if _, out := h.call(method, mSlice{arr}); out.kind != "ok" {
+		return fmt.Sprintf("%s(%q): %s %s", method, rs, out.kind, out.why)
+	}
+	return ""
+}
+
+// tkOver: every string up to maxLen over an alphabet (the empty string excluded).
+func tkOver(alpha []string, maxLen int) []string {
+	var all []string
+	var rec func(p string, n int)
+	rec = func(p string, n int) {
+		if p != "" {
+			all = append(all, p)
+		}
+		if n == 0 {
+			return
+		}
+		for _, a := range alpha {
+			rec(p+a, n-1)
+		}
+	}
+	rec("", maxLen)
+	return all
+}
+
+// tkSymbolInputs: inputs over the characters of additionally registered symbols: every string up to
+// maxLen over those characters and a letter, and inputs that END at every point inside every symbol
+// (so also inside every proper prefix, registered or not) - alone, after a word, a blank, a digit,
+// the whole symbol and the same prefix; for templates also inside a tag.
+func tkSymbolInputs(kind string, syms []string, maxLen int) []string {
+	seen := map[string]bool{}
+	var out []string
+	add := func(s string) {
+		if !seen[s] {
+			seen[s] = true
+			out = append(out, s)
+		}
+	}
+	var alpha []string
+	for _, s := range syms {
+		for _, r := range s {
+			if !seen["α"+string(r)] {
+				seen["α"+string(r)] = true
+				alpha = append(alpha, string(r))
+			}
+		}
+	}
+	alpha = append(alpha, "a")
+	for _, s := range tkOver(alpha, maxLen) {
+		add(s)
+	}
+	for _, s := range syms {
+		rs := []rune(s)
+		for n := 1; n <= len(rs); n++ {
+			p := string(rs[:n])
+			for _, pre := range []string{"", "a", "a ", "1", s, p, s + " "} {
+				add(pre + p)
+				if kind == "mustache" {
+					add("{{" + pre + p)
+					add("x{{a " + pre + p)
+				}
+			}
+		}
+	}
+	return out
+}
+
+func (c *Ctx) tkHistories(kind string) []tkHistory {
+	var hs []tkHistory
+	maxLen := 3
+	if c.Tier == "thorough" {
+		maxLen = 4
+	}
+	if kind != "csv" {
+		// further symbols of three to five characters whose proper prefixes are partly registered, partly not
+		for _, syms := range [][]string{{"=:~"}, {"==="}, {"<<<<"}, {"<=>="}, {"=:~^!"}, {"=:~^!", "=:~"}, {"!~~", "!~~=<"}, {"-->"}, {"...", ".."}} {
+			syms := syms
+			hs = append(hs, tkHistory{{
+				desc:   fmt.Sprintf("SymbolState().Add of %q", syms),
+				apply:  func(h *tkHarness) string { return h.addSymbols(syms...) },
+				inputs: tkSymbolInputs(kind, syms, maxLen),
+			}})
+		}
+		// a symbol registered between two inputs
+		hs = append(hs, tkHistory{
+			{"", nil, []string{"=:", "a=:~", "=:~"}},
+			{`SymbolState().Add("=:~")`, func(h *tkHarness) string { return h.addSymbols("=:~") }, []string{"=:", "a=:~", "=:~", "=", "=:~=:", "=:~="}},
+			{`SymbolState().Add("=:~^!")`, func(h *tkHarness) string { return h.addSymbols("=:~^!") }, []string{"=:", "=:~", "=:~^", "=:~^!", "=:~^!=:~^", "a =:~^"}},
+		})
+		return hs
+	}
+	// CSV: several field separators used in one input; separators and quote symbols changed between inputs
+	for _, seps := range []string{",;", ",;\t", ";|", "\t,", "、,"} {
+		seps := seps
+		alpha := []string{"a", "\"", "\n", " "}
+		for _, r := range seps {
+			alpha = append(alpha, string(r))
+		}
+		in := tkOver(alpha, maxLen)
+		rs := []rune(seps)
+		in = append(in, "a"+string(rs[0])+"b"+string(rs[1])+"c"+string(rs[len(rs)-1])+"d\n"+string(rs[1])+string(rs[0])+"\"x"+string(rs[1])+"y\""+string(rs[1])+"z")
+		hs = append(hs, tkHistory{{
+			desc:   fmt.Sprintf("SetFieldSeparators(%q)", seps),
+			apply:  func(h *tkHarness) string { return h.setRunes("SetFieldSeparators", seps) },
+			inputs: in,
+		}})
+	}
+	rows := []string{"a,b", "a;b", "a,b;c\td|e", ",", ";", "\t", "|;,", "\"a,b\";'c;d'|e", "'", "a'b\"c", "x\r\n,;\n"}
+	set := func(method, rs string) tkStage {
+		return tkStage{fmt.Sprintf("%s(%q)", method, rs), func(h *tkHarness) string { return h.setRunes(method, rs) }, rows}
+	}
+	hs = append(hs,
+		tkHistory{{"", nil, rows}, set("SetFieldSeparators", ";"), set("SetFieldSeparators", "\t|"), set("SetQuoteSymbols", "'"), set("SetFieldSeparators", ","), set("SetQuoteSymbols", "\"'")},
+		tkHistory{set("SetFieldSeparators", ";"), set("SetQuoteSymbols", "'"), set("SetFieldSeparators", ",;"), set("SetQuoteSymbols", "\""), set("SetFieldSeparators", "|")},
+		tkHistory{set("SetQuoteSymbols", "'"), set("SetFieldSeparators", "\""), set("SetFieldSeparators", "|,"), set("SetQuoteSymbols", "\";")},
+	)
+	return hs
+}
+
+// tkRunHistory evaluates one history on a fresh instance.
+func (c *Ctx) tkRunHistory(kind string, hist tkHistory, v *tkVerdict) {
+	h := c.newTkHarness(kind)
+	if h.fault != "" {
+		v.note("lossless", "", h.fault)
+		return
+	}
+	if why := h.setOptions(0); why != "" {
+		v.note("lossless", "", why)
+		return
+	}
+	var done []string
+	for _, st := range hist {
+		if st.apply != nil {
+			done = append(done, st.desc)
+			if why := st.apply(h); why != "" {
+				if strings.Contains(why, " panic ") {
+					v.note("lossless", fmt.Sprintf("%s tokenizer: %s - a valid configuration is refused", kind, why), "")
+				} else {
+					v.note("lossless", "", kind+" tokenizer: "+why)
+				}
+				return
+			}
+		}
+		label := kind + " tokenizer"
+		if len(done) > 0 {
+			label = fmt.Sprintf("%s tokenizer (configured by %s)", kind, strings.Join(done, ", then "))
+			if len(hist) > 1 {
+				label = fmt.Sprintf("%s tokenizer (configured by %s; the same instance read the inputs of the earlier stages)", kind, strings.Join(done, ", then "))
+			}
+		}
+		for i, s := range st.inputs {
+			r := h.tokenize(s)
+			label := label
+			if i > 0 {
+				label += fmt.Sprintf(" as input %d of this stage (the one before was %q)", i+1, st.inputs[i-1])
+			}
+			show := fmt.Sprintf("%s on %q", label, s)
+			if i%41 == 0 {
+				noteSample("TOK.lossless/"+kind+"-configured", show)
+			}
+			switch r.kind {
+			case "opaque":
+				v.note("lossless", "", show+": "+r.why)
+			case "panic":
+				v.note("lossless", show+" panics: "+r.why, "")
+			default:
+				tkCheckBase(label, s, r.toks, v, h.lastPath)
+			}
+		}
+	}
 }
 
 var tkMemo = map[string]*tkVerdict{}
@@ -297,7 +542,7 @@ func (c *Ctx) tkRun(kind, part string) *tkVerdict {
 	}
 	maxLen := 3
 	optLen := 2
-	masks := []int{1, 2, 4, 8, 16, 32, 64, 127, 2 | 4, 2 | 16, 4 | 2 | 8, 64 | 32, 1 | 8, 2 | 4 | 16 | 64}
+	masks := []int{1, 2, 4, 8, 16, 32, 64, 127, 2 | 4, 2 | 16, 4 | 2 | 8, 64 | 32, 1 | 8, 2 | 4 | 16 | 64, 8 | 64}
 	if c.Tier == "thorough" {
 		maxLen = 4
 		masks = nil
@@ -308,6 +553,9 @@ func (c *Ctx) tkRun(kind, part string) *tkVerdict {
 	strs := tkStrings(maxLen)
 	nBounded := len(strs)
 	strs = append(strs, tkPool...)
+	if part != "reuse" {
+		strs = append(strs, tkQuotePool()...)
+	}
 	total := newTkVerdict()
 	nw := 12
 	var wg sync.WaitGroup
@@ -351,7 +599,7 @@ func (c *Ctx) tkRun(kind, part string) *tkVerdict {
 					v.note("lossless", show+" panics: "+r.why, "")
 					continue
 				}
-				tkCheckBase(kind, s, r.toks, v, h.lastPath)
+				tkCheckBase(kind+" tokenizer", s, r.toks, v, h.lastPath)
 				fresh[s] = renderToks(r.toks)
 				// the string-list entry point hands out exactly the token values
 				if part == "base" && (i >= nBounded || len([]rune(s)) <= 1) {
@@ -378,28 +626,65 @@ func (c *Ctx) tkRun(kind, part string) *tkVerdict {
 				}
 				// options: bounded strings up to optLen and the pool
 				if inOptions && part == "options" {
-					from, dec, why := h.quoteInfo(r.toks)
+					from, dec, why := h.quoteInfo(kind, r.toks)
 					if why != "" {
 						v.note("options", "", show+": "+why)
 						continue
 					}
-					for _, mask := range masks {
+					// the string-list entry points under the same options: all inputs in the thorough tier, here the
+					// inputs with a token of the quote state (a decoded value may be empty) and a sample of the others
+					viaStrings := c.Tier == "thorough" || i%5 == 0
+					for _, q := range from {
+						viaStrings = viaStrings || (q && i >= nBounded)
+					}
+					for mi, mask := range masks {
 						if why := h.setOptions(mask); why != "" {
 							v.note("options", "", why)
 							break
 						}
 						got := h.tokenize(s)
-						want := tkExpect(r.toks, from, dec, mask)
+						want := tkExpect(r.toks, from, dec, 0, mask)
 						switch {
 						case got.kind == "opaque":
 							v.note("options", "", show+" with "+optNames(mask)+": "+got.why)
 						case got.kind == "panic":
 							v.note("options", show+" with "+optNames(mask)+" panics: "+got.why, "")
-						case renderToks(got.toks) != renderToks(want):
+						case renderToks(got.toks) != renderToks(want) && renderToks(got.toks) != renderToks(tkExpect(r.toks, from, dec, 1, mask)):
 							v.note("options", fmt.Sprintf("%s with %s gives [%s]; the option-free stream [%s] with whole tokens dropped or rewritten, at their own positions, is [%s]", show, optNames(mask), renderToks(got.toks), renderToks(r.toks), renderToks(want)), "")
 						default:
 							v.note("options", "", "")
 						}
+						if got.kind != "ok" || !viaStrings {
+							continue
+						}
+						// the same stream as a list of values: every token of the optioned stream, nothing else
+						entry := tkStringEntries[(mi+i)%len(tkStringEntries)]
+						vals, k, why := h.stringsVia(entry, s)
+						valuesOf := func(ts []tkTok) string {
+							vs := []string{}
+							for _, t := range ts {
+								vs = append(vs, t.val)
+							}
+							return fmt.Sprintf("%q", vs)
+						}
+						switch {
+						case k == "panic":
+							v.note("options", fmt.Sprintf("%s with %s: %s panics: %s", show, optNames(mask), entry, why), "")
+						case k != "ok":
+							v.note("options", "", fmt.Sprintf("%s with %s: %s: %s", show, optNames(mask), entry, why))
+						case fmt.Sprintf("%q", vals) != valuesOf(want) && fmt.Sprintf("%q", vals) != valuesOf(tkExpect(r.toks, from, dec, 1, mask)):
+							v.note("options", fmt.Sprintf("%s with %s: %s gives the values %q; the option-free stream [%s] with whole tokens dropped or rewritten has the values %s (TokenizeBuffer under the same options gives %s)", show, optNames(mask), entry, vals, renderToks(r.toks), valuesOf(want), valuesOf(got.toks)), "")
+						default:
+							v.note("options", "", "")
+						}
+					}
+				}
+			}
+			// instances configured through the exported API (further symbols, several separators, reconfiguration between inputs)
+			if part == "base" {
+				for i, hist := range c.tkHistories(kind) {
+					if i%nw == w {
+						c.tkRunHistory(kind, hist, v)
 					}
 				}
 			}
@@ -461,6 +746,26 @@ func (c *Ctx) tkRun(kind, part string) *tkVerdict {
 						v.note("reuse", "", why)
 					case got != fresh[s1] && fresh[s1] != "":
 						v.note("reuse", fmt.Sprintf("%s tokenizer on %q pulled with %d HasNextToken queries before each NextToken gives [%s]; TokenizeBuffer gives [%s]", kind, s1, polls, got, fresh[s1]), "")
+					default:
+						v.note("reuse", "", "")
+					}
+				}
+				// what was produced for an input is not changed by what the instance processes later: the token
+				// list handed out for s1 still has the same tokens after two more inputs were tokenized
+				for ei, entry := range []string{"TokenizeBuffer", "TokenizeStream"} {
+					raw, r1 := h.tokenizeVia(entry, s1)
+					if r1.kind != "ok" || raw == nil {
+						continue
+					}
+					s2, s3 := pool[(i+5+ei)%len(pool)], pool[(i+13+2*ei)%len(pool)]
+					h.tokenizeVia(entry, s2)
+					h.tokenize(s3)
+					again, why := h.readTokens(raw)
+					switch {
+					case why != "":
+						v.note("reuse", "", fmt.Sprintf("%s tokenizer: reading the token list of %q again: %s", kind, s1, why))
+					case renderToks(again) != renderToks(r1.toks):
+						v.note("reuse", fmt.Sprintf("%s tokenizer: the token list %s returned for %q was [%s]; after the same instance tokenized %q and %q that list reads [%s]: results handed out earlier are overwritten by later calls", kind, entry, s1, renderToks(r1.toks), s2, s3, renderToks(again)), "")
 					default:
 						v.note("reuse", "", "")
 					}
@@ -552,35 +857,47 @@ func (h *tkHarness) pullRewound(s string, polls, k int) (string, string) {
 }
 
 func (h *tkHarness) pullOn(sc mv, polls, max int) (string, string) {
+	ts, bad, why := h.pullToks(sc, polls, max)
+	if bad != "" {
+		return bad, ""
+	}
+	if why != "" {
+		return "", why
+	}
+	return renderToks(ts), ""
+}
+
+// pullToks: the tokens, or a description of a contradiction between HasNextToken and NextToken, or why undecided.
+func (h *tkHarness) pullToks(sc mv, polls, max int) ([]tkTok, string, string) {
 	scT := h.c.MustFunc("io", "", "NewStringScanner").Signature.Results().At(0).Type()
 	if _, out := h.call("SetReader", mIface{t: scT, v: sc}); out.kind != "ok" {
-		return "", "SetReader: " + out.why
+		return nil, "", "SetReader: " + out.why
 	}
 	var toks []mv
 	if max == 0 {
 		for p := 0; p < polls; p++ {
 			if _, out := h.call("HasNextToken"); out.kind != "ok" {
-				return "", "HasNextToken: " + out.why
+				return nil, "", "HasNextToken: " + out.why
 			}
 		}
-		return "", ""
+		return nil, "", ""
 	}
 	for n := 0; n < max; n++ {
 		more := true
 		for p := 0; p < polls; p++ {
 			r, out := h.call("HasNextToken")
 			if out.kind != "ok" {
-				return "", "HasNextToken: " + out.why
+				return nil, "", "HasNextToken: " + out.why
 			}
 			b, ok := r.(bool)
 			if !ok {
-				return "", "HasNextToken is undetermined"
+				return nil, "", "HasNextToken is undetermined"
 			}
 			more = b
 		}
 		t, out := h.call("NextToken")
 		if out.kind != "ok" {
-			return "", "NextToken: " + out.why
+			return nil, "", "NextToken: " + out.why
 		}
 		if _, isNil := t.(mNilT); isNil {
 			break
@@ -589,23 +906,23 @@ func (h *tkHarness) pullOn(sc mv, polls, max int) (string, string) {
 			break
 		}
 		if !more {
-			return "HasNextToken answered false but NextToken returned a token", ""
+			return nil, "HasNextToken answered false but NextToken returned a token", ""
 		}
 		toks = append(toks, t)
 		if len(toks) > 200 {
-			return "", "the pull iteration does not end"
+			return nil, "", "the pull iteration does not end"
 		}
 	}
 	ts, why := h.readTokens(mSlice{toks})
 	if why != "" {
-		return "", why
+		return nil, "", why
 	}
-	return renderToks(ts), ""
+	return ts, "", ""
 }
 
 func init() {
 	register(&Rule{ID: "TOK.lossless", Floor: 4,
-		Doc: "each built-in tokenizer evaluated abstractly (TokenizeBuffer on the machine, all options off) over every string up to a bounded length over the alphabet of state-selecting character classes and a pool of longer strings: the token values concatenate to the input, only the final end-of-input token is empty, and TokenizeBufferToStrings returns exactly those values",
+		Doc: "each built-in tokenizer evaluated abstractly (TokenizeBuffer on the machine, all options off) over every string up to a bounded length over the alphabet of state-selecting character classes and a pool of longer strings: the token values concatenate to the input, only the final end-of-input token is empty, and TokenizeBufferToStrings returns exactly those values; also for instances configured through the API (further symbols of 3-5 characters with unregistered prefixes and inputs ending inside them, several CSV separators in one input, separators / quote symbols / symbols changed between inputs)",
 		Run: func(c *Ctx) []*Obligation {
 			return tkEmit(c, "TOK.lossless", "lossless", "values concatenate to the input")
 		}})
@@ -615,12 +932,12 @@ func init() {
 			return tkEmit(c, "TOK.position", "position", "positions equal the forward scan")
 		}})
 	register(&Rule{ID: "TOK.options", Floor: 4,
-		Doc: "for option combinations (quick: each option alone, all, and mixed sets; thorough: all 127) the stream equals the option-free stream with whole tokens dropped or rewritten as the statement lists, each token at the position of the token it came from; decoded values are the tokenizer's own DecodeString of the raw token",
+		Doc: "for option combinations (quick: each option alone, all, and mixed sets; thorough: all 127) the stream equals the option-free stream with whole tokens dropped or rewritten as the statement lists, each token at the position of the token it came from; decoded values come from a model of the statements (one enclosing pair removed, doubled quotes collapsed for the expression and CSV states), and the string-list entry points give the values of the same rewritten stream",
 		Run: func(c *Ctx) []*Obligation {
 			return tkEmit(c, "TOK.options", "options", "optioned streams equal the rewritten option-free stream")
 		}})
 	register(&Rule{ID: "TOK.reuse", Floor: 4,
-		Doc: "every ordered pair of a pool (every multi-character symbol, every token class, unterminated literals) on one instance against a fresh instance; pull iteration with 0, 1 and 3 HasNextToken queries per token against TokenizeBuffer; a new input after an iteration abandoned after 0..8 tokens; the same scanner object rewound and assigned again",
+		Doc: "every ordered pair of a pool (every multi-character symbol, every token class, unterminated literals) on one instance against a fresh instance; pull iteration with 0, 1 and 3 HasNextToken queries per token against TokenizeBuffer; a new input after an iteration abandoned after 0..8 tokens; the same scanner object rewound and assigned again; a token list handed out earlier reads the same after two later inputs",
 		Run: func(c *Ctx) []*Obligation {
 			return tkEmit(c, "TOK.reuse", "reuse", "results do not depend on history or on has-next queries")
 		}})
